@@ -120,7 +120,9 @@ func (g *Gen) mutateTx(line string, n int) []string {
 		var v []kv
 		switch kindOfField(sub, f.k) {
 		case fkAddr:
-			switch g.pick(6) {
+			switch g.pick(7) {
+			case 6:
+				v = set(fs, f.k+"upper", "1")
 			case 0:
 				v = set(fs, f.k+"bad", "1")
 			case 1, 2:
